@@ -502,7 +502,10 @@ def judge_inputs(prop, inputs, tag):
     """run impl + model on inputs; returns (obs list, verdict list) - verdict None for invalid input"""
     pid = prop['id']
     dbg('judge_inputs', tag, len(inputs))
-    obs, valid = run_inputs(pid, inputs, tag=tag)
+    if prop.get('run_override'):
+        obs, valid = prop['run_override'](pid, inputs, tag)
+    else:
+        obs, valid = run_inputs(pid, inputs, tag=tag)
     dbg('  impl done')
     idx = [i for i in range(len(inputs)) if valid[i] and obs[i] is not None]
     cof = prop.get('case_of') or (lambda i, o: [i, o])
@@ -556,6 +559,8 @@ def decide(prop, tier, seed, t0):
     elif ok:
         try:
             inputs, meta = gen_inputs(pid, tier, seed)
+            if prop.get('gen_extra'):
+                inputs = inputs + prop['gen_extra'](tier, seed)
             # corpus first
             cdir = os.path.join(ROOT, 'corpus', pid)
             corpus = []
